@@ -112,7 +112,7 @@ def workload(rng, n):
     return out
 
 
-def txt(a, n):
+def show_arg(a, n):
     """printable form of an argument for reports (str() of a Header may itself raise, e.g. with 100 blocks)"""
     try:
         return (core.show_header(a) if isinstance(a, tr31.Header) else str(a))[:n]
@@ -148,8 +148,8 @@ def run(ctx):
         before = snapshot(it[1])
         ref.append(call(it))
         if snapshot(it[1]) != before:
-            viol.append({"what": "call modified its arguments", "input": {"fn": it[0], "args": [txt(a, 80) for a in before]},
-                         "expected": "arguments unchanged", "observed": [txt(a, 80) for a in snapshot(it[1])]})
+            viol.append({"what": "call modified its arguments", "input": {"fn": it[0], "args": [show_arg(a, 80) for a in before]},
+                         "expected": "arguments unchanged", "observed": [show_arg(a, 80) for a in snapshot(it[1])]})
         dist[it[0]] = dist.get(it[0], 0) + 1
     # objects handed out earlier must not change afterwards (e.g. headers returned by unwrap sharing one default object)
     kept = []
@@ -163,7 +163,7 @@ def run(ctx):
     for it, h, txt in kept:
         if core.show_header(h) != txt:
             viol.append({"what": "a header returned by an earlier unwrap was changed by later calls",
-                         "input": {"fn": "tr31.unwrap", "args": [txt(a, 80) for a in it[1]]}, "expected": txt[:100], "observed": core.show_header(h)[:100]})
+                         "input": {"fn": "tr31.unwrap", "args": [show_arg(a, 80) for a in it[1]]}, "expected": txt[:100], "observed": core.show_header(h)[:100]})
             break
     # TR-31 unwrap through ONE KeyBlock object per KBPK, reused for every block of every version in workload order:
     # same result as the module-level unwrap on a fresh object
@@ -181,7 +181,7 @@ def run(ctx):
         dist["tr31.unwrap on a reused KeyBlock"] = dist.get("tr31.unwrap on a reused KeyBlock", 0) + 1
         if got != r:
             viol.append({"what": "unwrap on a KeyBlock that earlier unwrapped other blocks differs from unwrap on a fresh object",
-                         "input": {"fn": "tr31.unwrap", "args": [txt(a, 120) for a in it[1]]}, "expected": str(r)[:160], "observed": str(got)[:160]})
+                         "input": {"fn": "tr31.unwrap", "args": [show_arg(a, 120) for a in it[1]]}, "expected": str(r)[:160], "observed": str(got)[:160]})
             if len(viol) > 20:
                 break
     # ... and the same reused-object history against the model's fold of step (outcomes and the header left behind,
@@ -200,7 +200,7 @@ def run(ctx):
     # repetition
     for it, r in zip(items[:300], ref):
         if call(it) != r:
-            viol.append({"what": "same call, different result on repetition", "input": {"fn": it[0], "args": [txt(a, 80) for a in it[1]]},
+            viol.append({"what": "same call, different result on repetition", "input": {"fn": it[0], "args": [show_arg(a, 80) for a in it[1]]},
                          "expected": str(r)[:120], "observed": "differs"})
     # model: same values (the deterministic functions the driver exposes)
     mitems = [(i, it) for i, it in enumerate(items) if it[0] in core.FUNCS]
@@ -233,7 +233,7 @@ def run(ctx):
             bad = [i for i in range(len(items)) if results[i] != ref[i]]
             for i in bad[:10]:
                 viol.append({"what": "result under %d interleaved threads differs from the single-threaded result" % nthreads,
-                             "input": {"fn": items[i][0], "args": [txt(a, 80) for a in items[i][1]], "threads": nthreads, "seed": ctx.seed},
+                             "input": {"fn": items[i][0], "args": [show_arg(a, 80) for a in items[i][1]], "threads": nthreads, "seed": ctx.seed},
                              "expected": str(ref[i])[:120], "observed": str(results[i])[:120]})
             for i, it in enumerate(items):
                 if snapshot(it[1]) != befores[i]:
@@ -242,7 +242,7 @@ def run(ctx):
                     break
     finally:
         sys.setswitchinterval(old)
-    samples = [{"fn": it[0], "args": [txt(a, 40) for a in it[1]], "result": str(r)[:60]} for it, r in list(zip(items, ref))[:4]]
+    samples = [{"fn": it[0], "args": [show_arg(a, 40) for a in it[1]], "result": str(r)[:60]} for it, r in list(zip(items, ref))[:4]]
     return {"evaluations": len(items) * 3 + 300, "distinct_nontrivial": len({(it[0], str(it[1])) for it in items}), "samples": samples,
             "distribution": dist, "diffs": diffs, "violations": viol,
             "not_covered": ["CPython / OpenSSL internals under true parallelism beyond the observed schedules"],
